@@ -271,7 +271,7 @@ class _P:
             self.i += 1
             d = {}
             while True:
-                k = self.value()
+                k = _freeze(self.value())
                 self.eat(":>")
                 d[k] = self.value()
                 self.ws()
@@ -311,6 +311,15 @@ class _P:
                 continue
             self.eat(close)
             return items
+
+
+def _freeze(v):
+    """make a parsed value usable as a dict key (records become sorted tuples of pairs)"""
+    if isinstance(v, dict):
+        return tuple(sorted((k, _freeze(x)) for k, x in v.items()))
+    if isinstance(v, (list, tuple)):
+        return tuple(_freeze(x) for x in v)
+    return v
 
 
 def parse_value(txt: str):
